@@ -230,6 +230,8 @@ def scen_after(env, cfg):
     name = 'if |H| <= 1 at every frequency the output energy does not exceed the input energy'
     if not energy:
         return
+    if not env.symbolic and env.impl == 'model':
+        return          # the model's solve_ivp is a stub with an arbitrary state: only the real run has numbers here
     if not env.symbolic:
         passive = all(float(env.abs2(hh)) <= 1 + 1e-9 for hh in Hs)
         for p in range(pol):
